@@ -53,13 +53,28 @@ if [ "${1:-}" = "replay" ]; then
     asesim-c16-profile-diff)
       build optchk unopt rel || exit 2
       run="$(python3 -c 'import json,sys; print(json.load(open(sys.argv[1]))["run"])' "$f")"
-      a="$("$(exe unopt)" c16-digest --seed "$SEED" --from "$run" --to $((run+1)))"
-      b="$("$(exe rel)" c16-digest --seed "$SEED" --from "$run" --to $((run+1)))"
-      c="$("$(exe optchk)" c16-digest --seed "$SEED" --from "$run" --to $((run+1)))"
-      d="$("$(exe optchk)" c16-digest --seed "$SEED" --from "$run" --to $((run+1)))"
+      ndig="$(python3 -c 'import json,sys; print(json.load(open(sys.argv[1])).get("runs",0))' "$f")"
+      w1="$(python3 -c 'import json,sys; print(json.load(open(sys.argv[1])).get("workers",16))' "$f")"
+      # each listing is recomputed by a process that executes the same chunk of runs as in the
+      # original batch (state leaking from earlier runs of a process is part of the replay)
+      one() { # profile workers
+        local step=$(( (ndig + $2 - 1) / $2 )); [ "$step" -lt 1 ] && step=1
+        local a=$(( run / step * step )); local b=$(( a + step )); [ "$b" -gt "$ndig" ] && b="$ndig"; [ "$b" -le "$run" ] && b=$((run+1))
+        "$(exe "$1")" c16-digest --seed "$SEED" --from "$a" --to "$b" 2>/dev/null | awk -v r="$run" '$1==r'
+      }
+      a="$(one unopt "$w1")"; b="$(one rel "$w1")"; c="$(one optchk "$w1")"; d="$(one optchk 7)"
       echo "unopt : $a"; echo "rel   : $b"; echo "optchk: $c"; echo "optchk: $d (second process)"
       if [ "$a" = "$b" ] && [ "$b" = "$c" ] && [ "$c" = "$d" ]; then echo "replay $f: listings agree"; exit 0; fi
       echo "VIOLATION property=C16 replay=$f"; exit 1;;
+    asesim-c16-stress)
+      build optchk || exit 2
+      run="$(python3 -c 'import json,sys; print(json.load(open(sys.argv[1]))["run"])' "$f")"
+      iters="$(python3 -c 'import json,sys; print(json.load(open(sys.argv[1]))["iters"])' "$f")"
+      for k in $(seq 1 200); do
+        out="$("$(exe optchk)" stress-c16 --seed "$SEED" --from "$run" --to $((run+1)) --threads 6 --iters $((iters*4)) 2>/dev/null)" && continue
+        echo "$out" | head -2; echo "  (hit on attempt $k)"; echo "VIOLATION property=C16 replay=$f"; exit 1
+      done
+      echo "replay $f: 200 stress attempts, no differing result"; exit 0;;
     asesim-c16-miri)
       lo="$(python3 -c 'import json,sys; print(json.load(open(sys.argv[1]))["miri_seed"])' "$f")"
       rate="$(python3 -c 'import json,sys; print(json.load(open(sys.argv[1]))["preemption_rate"])' "$f")"
@@ -76,7 +91,6 @@ fi
 
 TIER="${1:-quick}"; SEED="${2:-1}"; WORKERS="${3:-$(nproc)}"
 mkdir -p "$TARGET" "$OUT/evidence" "$OUT/replays"
-build optchk unopt rel || exit 2
 VIOL=0; HARN=0
 declare -a NOTES=()
 
@@ -103,6 +117,21 @@ elif [ $rc -eq 2 ]; then
   HARN=1
 fi
 
+if [ "$TYPE_RESULT" = "violated" ]; then
+  # the simulator itself shares &AsepriteFile across threads, so it cannot even be built against a
+  # sprite type that is not Send + Sync: the type obligation alone decides the property here.
+  T1=$(date +%s.%N)
+  python3 - "$OUT/evidence/C16.json" "$TIER" "$SEED" "$T0" "$T1" <<'EOF2'
+import json,sys
+p,tier,seed,t0,t1=sys.argv[1:]
+json.dump({"property_id":"C16","tier":tier,"seed":int(seed),"level":"exploration","wall_s":round(float(t1)-float(t0),1),"violations":1,
+ "coverage":{"evaluations":1,"distinct_nontrivial":0,"rule":"type obligation failed; schedules not explored","samples":[{"obligation":"Send + Sync","result":"violated"}],
+ "extra":{"1_type_send_sync":{"result":"violated"}}}},open(p,"w"),indent=1)
+EOF2
+  exit 1
+fi
+build optchk unopt rel || exit 2
+
 # ---- 2 + 3a. histories, permutations, baton schedules ----------------------------------------
 if [ "$TIER" = "thorough" ]; then PROFS="optchk unopt"; else PROFS="optchk"; fi
 args=(); for p in $PROFS; do args+=(--exe "$p=$(exe "$p")"); done
@@ -117,7 +146,7 @@ digests unopt 0 "$NDIG" "$D/unopt.txt" "$WORKERS"
 digests rel 0 "$NDIG" "$D/rel.txt" "$WORKERS"
 digests optchk 0 "$NDIG" "$D/optchk.txt" "$WORKERS"
 digests optchk 0 "$NDIG" "$D/optchk2.txt" 7
-DIFF_RESULT="$(python3 - "$D" "$NDIG" "$SEED" "$OUT/replays" <<'EOF'
+DIFF_RESULT="$(python3 - "$D" "$NDIG" "$SEED" "$OUT/replays" "$WORKERS" <<'EOF'
 import sys,json,collections
 d,n,seed,rep=sys.argv[1],int(sys.argv[2]),sys.argv[3],sys.argv[4]
 L={}
@@ -142,7 +171,7 @@ out={"runs":n,"mismatches":len(bad),"missing":missing,"classes":dict(classes),"r
 if bad:
     i,vals=bad[0]
     path=f"{rep}/C16-s{seed}-profile-diff-r{i}.json"
-    json.dump({"format":"asesim-c16-profile-diff","property":"C16","seed":int(seed),"run":i,"listings":vals,
+    json.dump({"format":"asesim-c16-profile-diff","property":"C16","seed":int(seed),"run":i,"runs":n,"workers":int(sys.argv[5]),"listings":vals,
       "expected":{"kind":"nondeterministic","signature":"C16|nondeterministic|profile-diff||observations differ between build profiles / processes"}},open(path,"w"),indent=1)
     out["replay"]=path; out["first"]=vals
 print(json.dumps(out))
@@ -156,6 +185,35 @@ if echo "$DIFF_RESULT" | grep -q '"replay"'; then
   VIOL=1
 elif echo "$DIFF_RESULT" | grep -q '"missing": \[\]'; then :; else
   echo "HARNESS-ERROR: digest listings incomplete: $DIFF_RESULT" >&2; HARN=1
+fi
+
+# ---- 3c. free-running native threads (complement; sound oracle, schedule chosen by the OS) -----
+if [ "$TIER" = "thorough" ]; then SRUNS=8000; SITERS=600; else SRUNS=640; SITERS=400; fi
+STRESS_RESULT="clean"
+SLOG="$TARGET/c16-stress.log"; : > "$SLOG"
+step=$(( (SRUNS + WORKERS - 1) / WORKERS )); a=0; pids=()
+while [ "$a" -lt "$SRUNS" ]; do
+  b=$(( a + step )); [ "$b" -gt "$SRUNS" ] && b="$SRUNS"
+  "$(exe optchk)" stress-c16 --seed "$SEED" --from "$a" --to "$b" --threads 6 --iters "$SITERS" >> "$SLOG" 2>/dev/null &
+  pids+=($!); a="$b"
+done
+for p in "${pids[@]}"; do wait "$p"; done
+if grep -q "^STRESS-VIOLATION" "$SLOG"; then
+  line="$(grep -m1 "^STRESS-VIOLATION" "$SLOG")"
+  srun="$(echo "$line" | sed -n 's/^STRESS-VIOLATION run \([0-9]*\) .*/\1/p')"
+  STRESS_RESULT="violated"
+  R="$OUT/replays/C16-s$SEED-stress-r$srun.json"
+  python3 - "$R" "$SEED" "$srun" "$SITERS" "$line" <<'EOF2'
+import json,sys
+json.dump({"format":"asesim-c16-stress","property":"C16","seed":int(sys.argv[2]),"run":int(sys.argv[3]),"threads":6,"iters":int(sys.argv[4]),
+ "note":"free-running OS threads: the oracle (result == sequential memo) is schedule-independent, the interleaving is not; replay re-runs the same stress up to 200 times and reports a violation if it hits again",
+ "expected":{"kind":"nondeterministic","signature":"C16|nondeterministic|stress||a concurrent accessor call returned a different result than on one thread"},
+ "observed":sys.argv[5]},open(sys.argv[1],"w"),indent=1)
+EOF2
+  echo "  $line"
+  echo "VIOLATION property=C16 replay=$R"
+  echo "  kind=nondeterministic: a concurrent accessor call returned a different result than the same call on one thread (native stress)"
+  VIOL=1
 fi
 
 # ---- 3b. Miri -----------------------------------------------------------------------------
@@ -199,9 +257,9 @@ done
 
 # ---- evidence: add the three side obligations to what asesim wrote ----------------------------
 T1=$(date +%s.%N)
-python3 - "$OUT/evidence/C16.json" "$TYPE_RESULT" "$DIFF_RESULT" "$MIRI_RESULT" "$MIRI_RUNS" "$MSEEDS" "$MCASES" "$RATES" "$VIOL" "$T0" "$T1" "$TIER" "$SEED" <<'EOF'
+python3 - "$OUT/evidence/C16.json" "$TYPE_RESULT" "$DIFF_RESULT" "$MIRI_RESULT" "$MIRI_RUNS" "$MSEEDS" "$MCASES" "$RATES" "$VIOL" "$T0" "$T1" "$TIER" "$SEED" "$STRESS_RESULT" "$SRUNS" "$SITERS" <<'EOF'
 import json,sys
-p,typ,diff,miri,mruns,mseeds,mcases,rates,viol,t0,t1,tier,seed=sys.argv[1:]
+p,typ,diff,miri,mruns,mseeds,mcases,rates,viol,t0,t1,tier,seed,stress,sruns,siters=sys.argv[1:]
 try:
     e=json.load(open(p))
 except Exception:
@@ -209,18 +267,19 @@ except Exception:
 d=json.loads(diff)
 e["coverage"]["extra"]={
   "1_type_send_sync":{"result":typ,"how":"cargo check of /verif/typecheck (assert_send_sync::<AsepriteFile and all borrowed views>)"},
+  "3c_native_stress":{"result":stress,"runs":int(sruns),"threads":6,"iterations_per_thread":int(siters),"note":"free-running OS threads; sound oracle, OS-chosen interleavings (complement to the deterministic stages)"},
   "3b_miri":{"result":miri,"program_runs":int(mruns),"miri_seeds":int(mseeds),"cases_per_seed":int(mcases),"preemption_rates":rates.split(),
              "what":"2..3 free-running threads over &AsepriteFile on tiny sprites; Miri's seeded scheduler preempts inside accessors; data races / UB / result != sequential memo fail the run"},
   "4_configurations":{"profiles":["unopt (overflow => panic)","rel (overflow => wrap)","optchk","optchk second process"],
              "runs_compared":d.get("runs"),"mismatches":d.get("mismatches"),"distinct_digests":d.get("distinct_digests"),"outcome_classes":d.get("classes"),
              "runs_with_accessor_panics":d.get("runs_with_accessor_panics")},
 }
-e["coverage"]["evaluations"]=int(e["coverage"].get("evaluations",0))+int(d.get("runs") or 0)*4+int(mruns)
+e["coverage"]["evaluations"]=int(e["coverage"].get("evaluations",0))+int(d.get("runs") or 0)*4+int(mruns)+int(sruns)
 e["violations"]=max(int(e.get("violations",0)),int(viol))
 e["wall_s"]=round(float(t1)-float(t0),1)
 json.dump(e,open(p,"w"),indent=1)
 EOF
-echo "[C16] type=$TYPE_RESULT miri=$MIRI_RESULT ($MIRI_RUNS program runs) profile-diff: $(echo "$DIFF_RESULT" | cut -c1-160)"
+echo "[C16] type=$TYPE_RESULT stress=$STRESS_RESULT miri=$MIRI_RESULT ($MIRI_RUNS program runs) profile-diff: $(echo "$DIFF_RESULT" | cut -c1-160)"
 [ $VIOL -ne 0 ] && exit 1
 [ $HARN -ne 0 ] && exit 2
 exit 0
